@@ -148,7 +148,9 @@ pub fn run(p: &LifeParams, sc: &str) -> (Vec<Vec<String>>, Value) {
     });
     hooks::uninstall();
     let mlines = with_world(|w| {
-        let mut l = w.m_lines(&[]);
+        // register-level stream of lives on the real MMIO transport (C10); the PCI register
+        // discipline is validated by the pci family (C11)
+        let mut l = if p.transport == "mmio" { w.m_lines(&[]) } else { vec![] };
         if !l.is_empty() {
             l.insert(0, json!({"e":"MReset","sc":sc,"ver":if p.legacy { 1 } else { 2 },"cfg_len":cfg_len}).to_string());
         }
